@@ -23,7 +23,7 @@ vars == <<desc, term, done>>
 Cls == <<"Dense", "User", "Diag", "ConstDiag", "Identity", "Zero", "Toeplitz", "Tri", "Chol", "Root", "LowRankRoot",
          "Kron", "KronTri", "KronDiag", "KronAddedDiag", "SumKron", "AddedDiag", "LRRAddedDiag", "Sum", "PsdSum",
          "Matmul", "Mul", "ConstMul", "BlockDiag", "BlockInter", "SumBatch", "BatchRepeat", "Cat", "Interp", "Masked",
-         "Perm", "TransPerm", "Kernel", "CholU", "KernelM", "InterpLeft">>
+         "Perm", "TransPerm", "Kernel", "CholU", "KernelM", "InterpLeft", "InterpI32">>
 Batches == << <<>>, <<2>> >>
 Dts == <<"f32", "f64">>
 Actions == <<"clone", "detach", "to_dtype", "type", "double", "float", "cpu", "rebuild", "requires_grad_", "evaluate_kernel", "outputs">>
@@ -34,6 +34,7 @@ ModeOf(c) == IF c \in G_PsdOnly THEN 1 ELSE 0
 RECURSIVE LeafKinds(_)
 LeafKinds(t) ==
   LET own == CASE t.cls = "Interp" -> <<"i", "f", "i", "f">>
+               [] t.cls = "InterpI32" -> <<"j", "f", "j", "f">>       \* "j": int32 index data
                [] t.cls = "InterpLeft" -> <<"i", "f", "i", "f">>      \* the constructor materialises the default (identity) right side
                [] t.cls = "Masked" -> <<"b", "b">>
                [] t.cls = "Perm" -> <<"i", "i">>                      \* the permutation and its inverse
@@ -75,7 +76,7 @@ Emit ==
   /\ LET A == Op_Denote(term') tgt == TargetOf(desc.action, desc.src, desc.tgt) kinds == LeafKinds(term')
      IN PrintT(ToJson([chk |-> "C14", desc |-> desc, path |-> Op_Path(term'), term |-> term', dense |-> A,
                        expect |-> [dtype |-> tgt,
-                                   leaf_dtypes |-> [i \in 1..Len(kinds) |-> IF kinds[i] = "f" THEN tgt ELSE IF kinds[i] = "i" THEN "i64" ELSE "bool"],
+                                   leaf_dtypes |-> [i \in 1..Len(kinds) |-> IF kinds[i] = "f" THEN tgt ELSE IF kinds[i] = "i" THEN "i64" ELSE IF kinds[i] = "j" THEN "i32" ELSE "bool"],
                                    structure |-> Structure(term'), shape |-> A.shape]]))
   /\ UNCHANGED desc
 Next == Emit
